@@ -130,7 +130,16 @@ def _hourly_output_case(seed):
             out2 = OutputManager(SimpleNamespace(ghe=g2, searchTracker=[["1x1", 0.0, 0.0, 0.0]]), 0.0, "p", "n", "a", "m", load_method=TimestepType.HYBRID)
             rows2 = [list(r) for r in out2.hourly_loading_data_rows[1:]]
             rows_again = [list(r) for r in out.hourly_loading_data_rows[1:]]
-        return {"rows": rows, "loads": reference, "rows2": rows2, "loads2": reference2, "first_table_unchanged": rows_again == rows}
+            # a shallow field (62 m): the 49-hour short-time response overlaps the long-time axis, so the joined curve drops short-time nodes
+            g3 = _mk_real_ghe(1, 2, 62.0, months=12)
+            g3.simulate(method=TimestepType.HYBRID)
+            g3.field_type, g3.fieldSpecifier = "rectangle", "1x2"
+            out3 = OutputManager(SimpleNamespace(ghe=g3, searchTracker=[["1x2", 0.0, 0.0, 0.0]]), 0.0, "p", "n", "a", "m", load_method=TimestepType.HYBRID)
+            gf3, _ = g3.grab_g_function(g3.B_spacing / float(g3.bhe.b.H))
+            gf_rows = [(float(r[0]), float(r[1])) for r in out3.g_function_data_rows[1:]]
+            curve3 = list(zip([float(x) for x in gf3.x], [float(y) for y in gf3.y]))
+        return {"rows": rows, "loads": reference, "rows2": rows2, "loads2": reference2, "first_table_unchanged": rows_again == rows,
+                "gf_rows": gf_rows, "curve3": curve3}
     except Exception as ex:  # noqa: BLE001
         return {"error": f"{type(ex).__name__}: {ex}"}
 
@@ -252,6 +261,10 @@ def run_c19() -> int:
                 break
         if len(o["rows2"]) != 8760 or bad2:
             chk.violation(f"C19 Loadings table of a second report in the same process does not echo that field's own loads (rows {len(o['rows2'])}, first mismatch {bad2})", {"mismatch": bad2})
+        if any(b[0] <= a[0] for a, b in zip(o["gf_rows"], o["gf_rows"][1:])):
+            chk.violation("C19 Gfunction table of a shallow (62 m) field: time column not strictly increasing", {})
+        if o["gf_rows"] != o["curve3"]:
+            chk.violation(f"C19 Gfunction table of a shallow (62 m) field differs from the curve used in the simulation ({len(o['gf_rows'])} rows vs {len(o['curve3'])} points)", {"table": o["gf_rows"][:4], "curve": o["curve3"][:4]})
         if not o["first_table_unchanged"]:
             chk.violation("C19 the Loadings table of an earlier report changed when a later report was prepared", {})
         chk.traces += 1
